@@ -111,8 +111,8 @@ func (t *tailBuf) Write(p []byte) (int, error) {
 	t.mu.Lock()
 	defer t.mu.Unlock()
 	t.buf = append(t.buf, p...)
-	if len(t.buf) > 1<<16 {
-		t.buf = t.buf[len(t.buf)-(1<<15):]
+	if len(t.buf) > 1<<20 {
+		t.buf = t.buf[len(t.buf)-(1<<19):]
 	}
 	return len(p), nil
 }
@@ -156,6 +156,11 @@ func New(opt Options) *Pool {
 	}
 	if opt.JobTimeout == 0 {
 		opt.JobTimeout = 120 * time.Second
+	}
+	if v := os.Getenv("VERIF_JOB_TIMEOUT"); v != "" {
+		if k, err := strconv.Atoi(v); err == nil && k > 0 {
+			opt.JobTimeout = time.Duration(k) * time.Second
+		}
 	}
 	if opt.MemLimitKB == 0 {
 		opt.MemLimitKB = 24 << 20
